@@ -439,7 +439,8 @@ class CGMYAnalytic(Lemma):
       second moment over a straddling interval [-A, b]: derivative in each end point and value 0 for the empty interval,
       also for the untempered fall-backs g = 0 and m = 0."""
     prop = "C09"
-    cases = tuple((reg, kind) for reg in ("0<y<1", "1<y<2") for kind in ("P:n=0", "P:n=1", "N:n=0", "N:n=1", "S:n=2", "S:n=2,g=0", "S:n=2,m=0"))
+    cases = tuple((reg, kind) for reg in ("0<y<1", "1<y<2") for kind in ("P:n=0", "P:n=1", "N:n=0", "N:n=1", "S:n=2", "S:n=2,g=0", "S:n=2,m=0")) \
+        + tuple(("y<0", kind) for kind in ("P:n=0", "N:n=0", "Z:n=0"))
 
     def __init__(self):
         self.name = "property:cgmy-closed-forms"
@@ -449,9 +450,12 @@ class CGMYAnalytic(Lemma):
         from pyvc.spval import SpVal, to_sp
         reg, kind = case
         nm = f"{self.name}[{reg},{kind}]"
-        lo, hi = (0.0, 1.0) if reg == "0<y<1" else (1.0, 2.0)
-        c, g, m, y = S("c", positive=True), S("g", positive=True), S("m", positive=True), S("y", positive=True)
+        c, g, m = S("c", positive=True), S("g", positive=True), S("m", positive=True)
         A, B = S("A", positive=True), S("B", positive=True)       # magnitudes of the end points
+        if reg == "y<0":
+            return self.prove_finite_activity(vc, nm, kind, c, g, m, A, B)
+        lo, hi = (0.0, 1.0) if reg == "0<y<1" else (1.0, 2.0)
+        y = S("y", positive=True)
         facts = [f for f in (y > lo, y < hi, A < B) if f is not sp.true]
         install_oracle(vc, dict(facts=facts, sample={c: 0.8, g: 6.0, m: 7.0, y: (lo + hi) / 2, A: 0.2, B: 0.5}), nm)
         gv = SpVal(0) if "g=0" in kind else SpVal(g)
@@ -491,10 +495,62 @@ class CGMYAnalytic(Lemma):
                     return sp.Symbol("limit_not_computed")
             vc.check_zero(nm + "::zero-on-the-empty-interval", at_zero, lambda rng: {w: rng.uniform(0.2, 3), c: 1.0, g: 2.0, m: 3.0})
 
+    def prove_finite_activity(self, vc, nm, kind, c, g, m, A, B):
+        """y = -w < 0 (finite activity): the mass of every interval is finite, also with an end point at zero, straddling
+        zero and over the whole line.  P / N: as in the other regimes; Z: intervals touching or straddling zero --
+        I(0, B) has derivative nu(B) and vanishes as B -> 0+ (likewise I(-A, 0)); I(0, oo) - I(B, oo) = I(0, B);
+        the straddling masses are the sums of their two sides: I(-A, B), I(-A, oo), I(-oo, B), I(-oo, oo)."""
+        from contracts.c10 import install_oracle, zero_form, S
+        from pyvc.spval import SpVal, to_sp
+        w = S("w", positive=True)
+        y = -w
+        install_oracle(vc, dict(facts=[A < B], sample={c: 0.8, g: 6.0, m: 7.0, w: 0.5, A: 0.2, B: 0.5}), nm)
+        par = vc.obj("rpylib.model.levymodel.purejump.cgmy:CGMYParameters", c=SpVal(c), g=SpVal(g), m=SpVal(m), y=SpVal(y))
+        nu = vc.obj("rpylib.model.levymodel.purejump.cgmy:_CGMYLevyMeasure", parameters=par)
+        it = vc.interp
+        dens = lambda x: to_sp(it.call(nu, [SpVal(x)], {}))
+        samp = lambda rng: {c: rng.uniform(0.2, 2), g: rng.uniform(1, 10), m: rng.uniform(1, 10), w: rng.uniform(0.05, 2.5),
+                            A: rng.uniform(0.05, 0.4), B: rng.uniform(0.45, 1.5)}
+        I = lambda a, b: to_sp(vc.method(nu, "integrate", a if isinstance(a, float) else SpVal(a), b if isinstance(b, float) else SpVal(b)))
+        if kind[0] in "PN":
+            sgn = 1 if kind[0] == "P" else -1
+            a, b = (A, B) if sgn > 0 else (-B, -A)
+            val = I(a, b)
+            vc.check_zero(nm + "::derivative-in-the-upper-end-is-x^n-nu", lambda: zero_form(sp.diff(val, B if sgn > 0 else A) * sgn - dens(b)), samp)
+            vc.check_zero(nm + "::derivative-in-the-lower-end-is-minus-x^n-nu", lambda: zero_form(sp.diff(val, A if sgn > 0 else B) * sgn + dens(a)), samp)
+            vc.check_zero(nm + "::zero-on-the-empty-interval", lambda: zero_form(val.subs(B, A)), samp)
+            inf_a = I(a, np.inf) if sgn > 0 else I(-np.inf, b)
+            inf_b = I(b, np.inf) if sgn > 0 else I(-np.inf, a)
+            vc.check_zero(nm + "::infinite-end:additive-with-the-finite-interval", lambda: zero_form(inf_a - inf_b - val), samp)
+            return
+        t = S("t", positive=True)
+        right, left = I(0.0, B), I(-A, 0.0)
+        vc.check_zero(nm + "::right-of-zero:derivative-in-the-end-point-is-nu", lambda: zero_form(sp.diff(right, B) - dens(B)), samp)
+        vc.check_zero(nm + "::left-of-zero:derivative-in-the-end-point-is-nu", lambda: zero_form(sp.diff(left, A) - dens(-A)), samp)
+
+        def vanishes(v, x):
+            def f():
+                try:
+                    return zero_form(sp.limit(sp.simplify(v.subs(x, t)), t, 0, "+"))
+                except Exception:
+                    return sp.Symbol("limit_not_computed")
+            return f
+        vc.check_zero(nm + "::right-of-zero:vanishes-with-the-interval", vanishes(right, B), samp)
+        vc.check_zero(nm + "::left-of-zero:vanishes-with-the-interval", vanishes(left, A), samp)
+        rinf, linf = I(0.0, np.inf), I(-np.inf, 0.0)
+        vc.check_zero(nm + "::right-half-line:additive", lambda: zero_form(rinf - I(B, np.inf) - right), samp)
+        vc.check_zero(nm + "::left-half-line:additive", lambda: zero_form(linf - I(-np.inf, -A) - left), samp)
+        vc.check_zero(nm + "::straddling:sum-of-both-sides", lambda: zero_form(I(-A, B) - left - right), samp)
+        vc.check_zero(nm + "::straddling,right-end-infinite:sum-of-both-sides", lambda: zero_form(I(-A, np.inf) - left - rinf), samp)
+        vc.check_zero(nm + "::straddling,left-end-infinite:sum-of-both-sides", lambda: zero_form(I(-np.inf, B) - linf - right), samp)
+        vc.check_zero(nm + "::whole-line:sum-of-both-half-lines", lambda: zero_form(I(-np.inf, np.inf) - linf - rinf), samp)
+
     def replay(self, model, clause, case):
         from scipy.integrate import quad
         from rpylib.model.levymodel.purejump.cgmy import CGMYParameters, _CGMYLevyMeasure
         reg, kind = case
+        if reg == "y<0":
+            return self.replay_finite_activity(clause, kind)
         yv = 0.5 if reg == "0<y<1" else 1.5
         nu = _CGMYLevyMeasure(CGMYParameters(c=0.8, g=0.0 if "g=0" in kind else 6.0, m=0.0 if "m=0" in kind else 7.0, y=yv))
         n = int(kind.split("n=")[1][0])
@@ -504,6 +560,43 @@ class CGMYAnalytic(Lemma):
         f = lambda x: x ** n * nu(x)
         want = quad(f, a, b, points=[0.0] if a < 0 < b else None, limit=400)[0] if not (a < 0 < b) else quad(f, a, -1e-12, limit=400)[0] + quad(f, 1e-12, b, limit=400)[0]
         return (abs(got - want) > 1e-6 * max(1.0, abs(want)), {"parameters": repr(nu.parameters), "interval": [a, b], "moment": n, "closed_form": got, "quadrature": float(want)})
+
+
+    def replay_finite_activity(self, clause, kind):
+        from scipy.integrate import quad
+        from rpylib.model.levymodel.purejump.cgmy import CGMYParameters, _CGMYLevyMeasure
+        nu = _CGMYLevyMeasure(CGMYParameters(c=0.8, g=6.0, m=7.0, y=-0.5))
+        inf = np.inf
+        if kind[0] == "P":
+            ivs = [(0.2, inf)] if "infinite-end" in clause else [(0.2, 0.5)]
+        elif kind[0] == "N":
+            ivs = [(-inf, -0.2)] if "infinite-end" in clause else [(-0.5, -0.2)]
+        elif "whole-line" in clause:
+            ivs = [(-inf, inf)]
+        elif "right-end-infinite" in clause:
+            ivs = [(-0.3, inf)]
+        elif "left-end-infinite" in clause:
+            ivs = [(-inf, 0.5)]
+        elif "straddling" in clause:
+            ivs = [(-0.3, 0.5)]
+        elif "right-half-line" in clause:
+            ivs = [(0.0, inf)]
+        elif "left-half-line" in clause:
+            ivs = [(-inf, 0.0)]
+        elif "right-of-zero" in clause:
+            ivs = [(0.0, 0.5), (0.0, 1e-9)]
+        else:
+            ivs = [(-0.3, 0.0), (-1e-9, 0.0)]
+        f = lambda x: float(nu(x))
+        for a, b in ivs:
+            want = quad(f, a, 0, limit=400)[0] + quad(f, 0, b, limit=400)[0] if a < 0 < b else quad(f, a, b, limit=400)[0]
+            try:
+                got = float(nu.integrate(a, b))
+            except Exception as e:
+                return (True, {"parameters": repr(nu.parameters), "interval": [a, b], "moment": 0, "exception": f"{type(e).__name__}: {e}", "quadrature": float(want)})
+            if not abs(got - want) <= 1e-6 * max(1.0, abs(want)):
+                return (True, {"parameters": repr(nu.parameters), "interval": [a, b], "moment": 0, "closed_form": got, "quadrature": float(want)})
+        return (False, {"parameters": repr(nu.parameters), "intervals": [list(i) for i in ivs]})
 
 
 UNITS = [ClosedForm(s) for s in MODELS.values()] + [XnExp(), XnDispatch(), DensityNonNegative(), CGMYAnalytic()]
@@ -527,7 +620,7 @@ class QuadratureBattery:
     quadrature over the intersection with the truncation."""
     name = "bounded:quadrature-battery"
     tier = "quick"
-    INTERVALS = [(0.01, 0.5), (0.2, np.inf), (-0.6, -0.02), (-np.inf, -0.1), (-0.4, 0.3), (-np.inf, np.inf), (0.0, 0.25), (-0.3, 0.0)]
+    INTERVALS = [(0.01, 0.5), (0.2, np.inf), (-0.6, -0.02), (-np.inf, -0.1), (-0.4, 0.3), (-np.inf, np.inf), (0.0, 0.25), (-0.3, 0.0), (-0.3, np.inf), (-np.inf, 0.2)]
 
     def run(self, tier, seed):
         from contracts import battery
